@@ -557,7 +557,8 @@ def gen_statement(e, d):
     return gen(e, r.choice(['num', 'str', 'bool', ('list', 'num'), ('dict', 'num'), 'any']), d)
 
 
-FAULTS = ['missing-key', 'index-out-of-range', 'pop-empty', 'undefined-name', 'undefined-function', 'too-few-lambda-arguments', 'compound-undefined', 'compound-missing-key', 'type-error', 'type-error']
+FAULTS = ['missing-key', 'index-out-of-range', 'pop-empty', 'undefined-name', 'undefined-function', 'too-few-lambda-arguments', 'compound-undefined', 'compound-missing-key', 'type-error', 'type-error',
+          'refused-container-type']
 
 
 def fault_statement(e, kind):
@@ -580,6 +581,10 @@ def fault_statement(e, kind):
                          'upper(5)', 'h_list + h_str', '[1, "a"] | sorted', 'sum(["a", "b"])', '1 in 5', 'h_num[0]', 'h_list["a"]', 'None.upper()', 'x_t = 5\nx_t += "a"',
                          'x_u = [1]\nx_u *= 2', 'x_v = "ab"\nx_v *= 2', 'h_dict["a"] += "s"', 'h_list[0] *= [1]', 'not_callable = 5\nnot_callable(1)', 'min(1, "a")', 'join([1, 2], 5)',
                          'round("a")', 'abs("x")', 'h_str[h_str]', 'True + "a"', '"a" + 1 + 1 - 1'])
+    if kind == 'refused-container-type':
+        # map / filter / reduce refuse what they cannot walk with the language's own error (not with whatever Python raises further down)
+        return r.choice(['map(5, v => v)', 'map(None, v => v)', 'filter("abc", v => True)', 'filter({"a": 1}, v => True)', 'reduce(5, (a, b) => a)', 'map(True, v => v)',
+                         'h_num | map(v => v)', 'filter(7, v => v)', 'reduce(None, (a, b) => b)', 'filter(None, v => v)'])
     if kind == 'compound-missing-key':
         return r.choice(['tmp_d2 = {"a": 1}\ntmp_d2["b"] += 1', 'tmp_l2 = [1]\ntmp_l2[3] -= 1'])
     return None
